@@ -29,7 +29,8 @@ Inductive cres :=
 | RRules (rs : list str)
 | RCount (n : N)
 | RRaw (ty : N) (data : str)
-| RFail (e : cerr).
+| RFail (e : cerr)
+| RPanicked.                            (* the call panicked (never produced by the model) *)
 
 Definition EINTR : Z := 4. Definition EAGAIN : Z := 11. Definition EEXIST : Z := 17.
 
@@ -198,27 +199,29 @@ Fixpoint wait_acks (s : cstate) (script : list revent) (todo : list N) : cstate 
       end
   end.
 
+Definition get_status (s : cstate) (w : world) : cstate * world * cres * list wire :=
+  let msg := (AuditGet, REQ_ACK, []) in
+  let '(s1, w1, sq, f) := do_send s w in
+  match f with
+  | Some e => (s1, w1, RFail (ESend e), [msg])
+  | None =>
+      let '(r, rest) := reply sq (rscript w1) in
+      match check_ack r with
+      | Some e => (s1, with_script w1 rest, RFail e, [msg])
+      | None =>
+          let '(r2, rest') := reply sq rest in
+          (s1, with_script w1 rest',
+           match r2 with
+           | inl e => RFail e
+           | inr (ty, _, d) => if ty =? AuditGet then match status_from_wire d with Some ws => RStatus ws | None => RFail EEOF end
+                               else RFail EReplyType
+           end, [msg])
+      end
+  end.
+
 Definition cstep (s : cstate) (w : world) (o : cop) : cstate * world * outcome :=
   match o with
-  | OGetStatus =>
-      let msg := (AuditGet, REQ_ACK, []) in
-      let '(s1, w1, sq, f) := do_send s w in
-      match f with
-      | Some e => (s1, w1, (RFail (ESend e), [msg], false))
-      | None =>
-          let '(r, rest) := reply sq (rscript w1) in
-          match check_ack r with
-          | Some e => (s1, with_script w1 rest, (RFail e, [msg], false))
-          | None =>
-              match reply sq rest with
-              | (inl e, rest') => (s1, with_script w1 rest', (RFail e, [msg], false))
-              | (inr (ty, _, d), rest') =>
-                  if ty =? AuditGet
-                  then (s1, with_script w1 rest', (match status_from_wire d with Some ws => RStatus ws | None => RFail EEOF end, [msg], false))
-                  else (s1, with_script w1 rest', (RFail EReplyType, [msg], false))
-              end
-          end
-      end
+  | OGetStatus => let '(s1, w1, r, ws) := get_status s w in (s1, w1, (r, ws, false))
   | OGetRules =>
       let '(s1, w1, r, ws) := get_rules s w in
       (s1, w1, (match r with inl e => RFail e | inr rs => RRules rs end, ws, false))
@@ -260,5 +263,12 @@ Definition cstep (s : cstate) (w : world) (o : cop) : cstate * world * outcome :
       end
   end.
 
-Fixpoint crun (s : cstate) (w : world) (ops : list cop) : list outcome :=
-  match ops with [] => [] | o :: r => let '(s', w', out) := cstep s w o in out :: crun s' w' r end.
+(* what one call shows at the Netlink interface: its outcome and how many receive
+   results it consumed *)
+Definition outcome4 := (cres * list wire * bool * N)%type.
+Fixpoint crun (s : cstate) (w : world) (ops : list cop) : list outcome4 :=
+  match ops with
+  | [] => []
+  | o :: r => let '(s', w', (res, ws, cl)) := cstep s w o in
+              (res, ws, cl, N.of_nat (length (rscript w) - length (rscript w'))) :: crun s' w' r
+  end.
